@@ -94,6 +94,12 @@ func (a *Arg) Resolve(field *Field, args map[string]interface{}) (result interfa
 		result = a.Type
 	case defaultValueStr:
 		result = a.Default
+		switch a.Default.(type) {
+		case nil, string:
+		default:
+			// The default value is reported as the text of the value, e.g. [1, 2] or {a: 1}.
+			result = valueString(a.Default)
+		}
 	}
 	return
 }
